@@ -4,8 +4,8 @@ from __future__ import annotations
 import ast
 import itertools
 
-from sa import source
-from sa.cfg import guards
+from sa import pat, source
+from sa.cfg import cfg_of, guards
 from sa.source import AnchorMissing, arg_of, bind_args, dotted, is_self_attr, last_attr, local_defs, params_of, short, u, walk_body
 from sa.sym import UnknownAtom, atoms_of, bool_eval, comparison, parse_expr, rat_equal
 from sa.tables import Unsupported, decide
@@ -657,6 +657,32 @@ def run(chk):
                         if c_ and c_[1] in ("is", "is not") and ((u(c_[0]) == u(opnd) and u(c_[2]) == "None") or (u(c_[2]) == u(opnd) and u(c_[0]) == "None")):
                             n_guard += 1
                             chk.ob("O20.5", f"{f.name}: `{u(a)}`", True, n, "")
+    # a statistic that is absent from an (older) stored race reads back as None: a list-valued one that is ITERATED must be None-tested for the race it is read from — the baseline's
+    # guard does not protect the loop over the contender's list (comparing new-vs-old would crash while old-vs-new works)
+    met2 = repo.module("esrally/metrics.py")
+    gsi = met2.methods(met2.cls("GlobalStats")).get("__init__")
+    nullable = set()
+    for n in walk_body(gsi):
+        if isinstance(n, ast.Assign) and is_self_attr(n.targets[0]) and isinstance(n.value, ast.Call) and u(n.value.func) == "self.v" and len(n.value.args) == 2 and not n.value.keywords:
+            nullable.add(n.targets[0].attr)
+    n_it = 0
+    for name, f in cm.items():
+        ps_ = [p_ for p_ in params_of(f) if p_ != "self"]
+        gf = cfg_of(f)
+        for lp in [n for n in walk_body(f) if isinstance(n, ast.For) and isinstance(n.iter, ast.Attribute) and isinstance(n.iter.value, ast.Name) and n.iter.value.id in ps_ and n.iter.attr in nullable]:
+            race = lp.iter.value.id
+            n_it += 1
+            tests = []
+            for t in [n for n in walk_body(f) if isinstance(n, ast.If)]:
+                parts = t.test.values if isinstance(t.test, ast.BoolOp) and isinstance(t.test.op, ast.Or) else [t.test]
+                none_test = lambda d_: isinstance(d_, ast.Compare) and len(d_.ops) == 1 and isinstance(d_.ops[0], ast.Is) and source.is_const(d_.comparators[0], None) \
+                    and isinstance(d_.left, ast.Attribute) and isinstance(d_.left.value, ast.Name) and d_.left.value.id == race  # noqa: E731
+                if any(none_test(d_) for d_ in parts) and any(isinstance(x, ast.Return) for x in t.body) and gf.dominated_by_nodes(gf.node_of(lp), [gf.node_of(t)]):
+                    tests.append(t)
+            chk.ob("O20.5", f"{name}: `{u(lp.iter)}` (None for a race stored without it) is None-tested before it is iterated", bool(tests), lp,
+                   "" if tests else f"no `{race}.<statistic> is None` test with an early return dominates the loop: the comparison crashes when only this race lacks the statistic",
+                   key=f"{_R}:ComparisonReporter.{name}:iterated-nullable:{u(lp.iter)}")
+    chk.ob("O20.5", "iterated optional statistics located", n_it >= 2, rep, f"{n_it} loop(s) over optional list-valued statistics")
     # asymmetric None guards -> advisory
     for name, f in cm.items():
         for n in walk_body(f):
